@@ -78,6 +78,20 @@ func bodyContentOf(name string) string {
 }
 
 func (d *c14Drv) bodyFile(name string) string {
+	if strings.HasPrefix(name, "far-") {
+		// <bodies>/ln is a symbolic link to <bodies>/../far/sub, so <bodies>/ln/../<name> is the file <far>/<name>:
+		// a different file than <bodies>/<name>, although the two paths are lexically "the same" once cleaned
+		far := filepath.Join(filepath.Dir(d.bodyDir), "far")
+		if _, err := os.Stat(filepath.Join(far, "sub")); err != nil {
+			must(os.MkdirAll(filepath.Join(far, "sub"), 0o755))
+			must(os.Symlink(filepath.Join(far, "sub"), filepath.Join(d.bodyDir, "ln")))
+		}
+		base := strings.TrimPrefix(name, "far-")
+		if _, err := os.Stat(filepath.Join(far, base)); err != nil {
+			must(os.WriteFile(filepath.Join(far, base), []byte(bodyContentOf(name)), 0o644))
+		}
+		return d.bodyDir + "/ln/../" + base
+	}
 	p := filepath.Join(d.bodyDir, name)
 	if _, err := os.Stat(p); err != nil {
 		must(os.WriteFile(p, []byte(bodyContentOf(name)), 0o644))
@@ -132,7 +146,7 @@ func (d *c14Drv) concretise(kinds []string, defKeys []string) []tline {
 			// no blank between key and colon: "KEY : v" with an upper-case key reads as a request line (grammar ambiguity, out of domain)
 			ln.text = strings.Repeat(" ", d.r.Intn(2)) + ln.A + ":" + strings.Repeat(" ", d.r.Intn(3)) + ln.B + strings.Repeat(" ", d.r.Intn(2))
 		case "BODY":
-			ln.A = []string{"b0.txt", "b1.txt", "b2.txt", "empty.txt", "run-12:30.bin", "k:v"}[d.r.Intn(6)] // a path may contain a colon
+			ln.A = []string{"b0.txt", "b1.txt", "b2.txt", "empty.txt", "run-12:30.bin", "k:v", "far-b0.txt", "far-b1.txt"}[d.r.Intn(8)] // a path may contain a colon, or lead through a symbolic link
 			ln.B = bodyContentOf(ln.A)
 			ln.text = "@" + d.bodyFile(ln.A)
 		case "COM":
